@@ -516,3 +516,5 @@ TIERS = {
 }
 EXPECTED_PROBES = ['math-lists-changed-while-in-math-mode', 'derive-without-effective-change',
                    'derive-repeats-current-values', 'chain-depth-4']
+
+STATES_MEASURE = ('distinct (field values, per-step inheritance pattern of the three cached table groups) pairs, derived from the program, not from private attributes')
